@@ -33,7 +33,8 @@ RULE = ("each run draws a transport mode (plain / stdlib TLS / PyOpenSSL TLS), a
         "time-stripped delivery signatures of the variant; non-trivial = the variant delivered the "
         "client bytes in >= 2 reads")
 PROBES = ["data_after_dispatch", "cut_inside_crlf", "cut_at_titan_size", "handshake_coalesced",
-          "titan_dispatch", "late_extra_reads", "real_upload_handler"]
+          "titan_dispatch", "late_extra_reads", "real_upload_handler",
+          "client_closes_right_after_request"]
 COMPONENTS = {
     "real": ["nauyaca.server.protocol.GeminiServerProtocol", "nauyaca.server.tls_protocol (PyOpenSSL pump)",
              "nauyaca.server.handler.FileUploadHandler", "asyncio selector transports + sslproto",
@@ -148,6 +149,8 @@ def run_case(ch, cfg, variant: bool, scratch):
         script = [("send", stream)]
         c2s = WholePolicy(0.001)
         coalesce = True
+        if cfg.get("early_close"):
+            script.append(("close",))
     else:
         pieces = cfg["pieces"](ch, stream)
         script = []
@@ -155,6 +158,9 @@ def run_case(ch, cfg, variant: bool, scratch):
             if delay:
                 script.append(("sleep", delay))
             script.append(("send", chunk))
+        if cfg.get("early_close"):
+            # the client says goodbye (close_notify / FIN) right behind its request
+            script.append(("close",))
         hot = [len(cfg["line"]) - 2, len(cfg["line"]) - 1, len(cfg["line"]),
                len(cfg["line"]) + cfg["size"], 1024, 1025]
         segmode = ch.choose("segmode", 4, [2, 4, 2, 3])
@@ -261,6 +267,12 @@ def run_one(ch):
         "slowmw": ch.pick("slowmw", [None, 0.0, 0.2], [6, 1, 2]),
         "pieces": gen_pieces,
     }
+    # a client that closes its side right after the request: only where the outcome
+    # cannot depend on timing (synchronous handler, no chain, Gemini request)
+    if kind in (0, 1) and cfg["hdelay"] is None and cfg["slowmw"] is None and \
+            ch.chance("early_close", 0.3):
+        cfg["early_close"] = True
+        res.stats["client_closes_right_after_request"] += 1
     base = run_case(ch, cfg, False, fresh_dir("c07a"))
     var = run_case(ch, cfg, True, fresh_dir("c07b"))
 
